@@ -45,6 +45,7 @@ BY_PROPERTY = {
     'C13': [('Mahotas.Proofs.PyBodyTiesC13', ['Mahotas.pybody_labeled_labeled_sum_eq_model', 'Mahotas.pybody_labeled_labeled_max_eq_model',
                                               'Mahotas.pybody_labeled_labeled_min_eq_model', 'Mahotas.pybody_labeled_labeled_size_eq_model',
                                               'Mahotas.pybody_labeled_remove_regions_where_eq_model',
+                                              'Mahotas.pybody_labeled_remove_regions_eq_model',
                                               'Mahotas.pybody_labeled_is_same_labeling_eq_model',
                                               'Mahotas.pybody_labeled_bwperim_eq_model', 'Mahotas.pybody_labeled_bwperim_binary'])],
     'C15': [('Mahotas.Proofs.PyBodyTiesC15', ['Mahotas.pybody_euler_euler_eq_model', 'Mahotas.pybody_thin_thin_eq_model',
